@@ -310,6 +310,15 @@ def pattern_witness(t1, t2, limit=400):
     return None
 
 
+def narrowing(t, w):
+    """a conversion to a narrower float format inside the term of a `w`-bit float result (value computed in double, stored in a float temporary, widened again): the
+    normal forms read float arithmetic as exact and cannot see it, but every bit beyond float precision is lost there -> the offending sub-term, or None"""
+    for x in tm.walk(t):
+        if x.op == 'fptrunc' and x.w < w:
+            return x
+    return None
+
+
 def float_idioms(t):
     """rewrites the portable spellings of two rounding functions (as GLM's pre-C++11 fallbacks write them) into the function they are, bottom-up over the term:
 
